@@ -27,12 +27,18 @@ import (
 // read is still answered on every connection.
 //
 // One case = one World (local LoadControl server, Measurement client, Generic server and client with a
-// few randomly chosen list functions; 2-3 identically numbered peers, each in a random connection
-// state; every third World with write approval callbacks) that receives 10-20 messages from random
+// few randomly chosen list functions, a nested entity [1,1] with a DeviceDiagnosis server and its heartbeat,
+// a spare entity [2] the application adds and removes; 2-3 identically numbered peers, each in a random
+// connection state, the last one in 40 % of the cases on a connection without writer (mute) or with a
+// writer that stalls; every third World with write approval callbacks) that receives 10-20 messages from random
 // peers, 60 % of them mutated (structure-aware tree mutators, byte mutators, splices, garbage, deep
 // nesting), through HandleSpineMesssage and HandleShipPayloadMessage. Then a sweep of valid messages
 // that takes every lock an inbound handler takes, read-only API calls an application makes, the
-// health probe on every connection, and the teardown. Every call into the stack runs under a watchdog;
+// health probe on every connection (one reply, addressed to the asking feature, payload equal to the reply
+// captured during the setup), and the teardown. A quarter of the cases reconnects a peer in the middle and
+// probes it at once, a third connects a fresh peer after the messages; the application calls SetData,
+// AddEntity/RemoveEntity, SubscribeToRemote/BindToRemote/RequestRemoteData concurrently with the peers
+// (concurrent parts) and once more before the second probe. Every call into the stack runs under a watchdog;
 // a call that does not return keeps the case blocked so that the parent reports hang@<frame>.
 
 const (
@@ -46,17 +52,23 @@ func init() {
 	rig.Register(&rig.Check{
 		ID:    "C05",
 		Floor: 700,
-		Rule: "case = one World with 2-3 identically numbered peers, each in a connection state drawn from {before discovery, after discovery, after binds/subscribes, write pending approval}, every third World with approval callbacks (policies approve/deny/hold/silent, timeout 30 ms or 1 h), " +
-			"10-20 messages from random peers, 60 % mutated: corpus of one valid datagram of every kind for the current World (rig builders: discovery reply/notify partial/full, subscription and binding request/delete calls, registry reads, use case read/reply/notify, destination list read/reply, read plain/selector/elements, write and notify with each filter shape for LoadControl/Measurement and for three list functions drawn from rig.DiscoverLists() via GenUpdate/Cmd, results) plus the repository's JSON fixtures; " +
+		Rule: "case = one World with 2-3 identically numbered peers, each in a connection state drawn from {before discovery, after discovery, after binds/subscribes (half of them also subscribed to the local NodeManagement and DeviceDiagnosis), write pending approval}, " +
+			"the last peer in 20 % of the cases on a connection without writer (every send fails) and in 20 % on one whose writer stalls for its own reader until the end, a quarter of the cases with a reconnect of peer 0 or 1 before a random message followed at once by a probe, a third with a fresh peer connected after the messages, " +
+			"every third World with approval callbacks (policies approve/deny/hold/silent, timeout 30 ms or 1 h), " +
+			"10-20 messages from random peers, 60 % mutated: corpus of one valid datagram of every kind for the current World (rig builders: discovery reply/notify partial/full, subscription and binding request/delete calls (to the LoadControl and Generic servers, the local NodeManagement [0]/0, the DeviceDiagnosis server of the nested entity [1,1], a local client feature, the spare entity), datagrams with two different commands, registry reads, use case read/reply/notify, destination list read/reply, read plain/selector/elements, write and notify with each filter shape for LoadControl/Measurement and for three list functions drawn from rig.DiscoverLists() via GenUpdate/Cmd, results) plus the repository's JSON fixtures; " +
 			"mutators on the decoded JSON tree (remove, null, {}, [], wrong scalar type, bad string/enum, extreme numbers, duplicate, swap sub-trees, wrap, rename key, nest), targeted structural ones (header address parts, classifier, cmd list, filter/cmdControl, function mismatch, emptied lists), semantic ones (one address part replaced by another valid-looking value, aimed at registry calls of peers that hold bindings), rate-based field dropping, byte truncation/flip/insert/cut, splices, garbage, empty input, deep nesting; " +
-			"then the health probe on every connection, a sweep of valid registry/read/write/notify traffic from every peer, read-only API walks, the health probe again and the teardown. " +
-			"part fuzz: as described; part approval: the same case aimed at writes of a bound peer that the application approves (generated selectors/elements, sparse stored items); parts concurrent / concurrent-race: every peer delivers its sequence on its own goroutine, replies to local requests with response callbacks included. " +
+			"then the health probe on every connection (exactly one reply, addressed from the asked to the asking feature, canonical payload equal to the reply captured during the setup), a sweep of valid registry/read/write/notify traffic from every peer, every application call once (SetData on four servers, AddEntity/RemoveEntity of the spare entity, SubscribeToRemote, BindToRemote, RequestRemoteData, RemoveRemoteSubscription/Binding), read-only API walks, the health probe again, the release of the stalled writer with a probe of that connection, and the teardown. " +
+			"part fuzz: as described; part approval: the same case aimed at writes of a bound peer that the application approves (generated selectors/elements, sparse stored items); parts concurrent / concurrent-race: every peer delivers its sequence on its own goroutine, replies to local requests with response callbacks included, while an application goroutine makes 8-16 of the calls above. " +
 			"A case is non-trivial if at least 4 mutated messages were delivered, at least one mutated message still decoded as a datagram, and both health probes were judged on every connection; " +
 			"distinct = hash of the sequence (peer state, corpus kind, mutator, delivery entry point) - payload values do not count.",
 		Assumptions: []string{
 			"'does not return' is decided by the parent's progress watchdog: a call that exceeds 20 s keeps its case blocked, and only a goroutine parked for over a minute inside spine-go makes it hang@<frame>; anything else is inconclusive",
 			"a panic in a goroutine the stack spawned kills the worker process and is attributed to the journaled case as crash@<frame>",
-			"a peer that un-announced its own NodeManagement feature ([0]/0 no longer resolves in that connection's remote device) is the known finding D28 for that peer only; it is recognised by state, never by the message that caused it",
+			"a peer that un-announced its own NodeManagement feature is the known finding D28 for that peer only. It is recognised by state ([0]/0 no longer resolves in that connection's remote device) AND by the message after which the state appeared: a partial discovery notify that removes [0], a full one that does not list [0], or a reply / partial notify 'added' that lists [0] without a description that makes feature 0 the NodeManagement feature (address [0]/0, type NodeManagement, role special; decided from the decoded message alone). A connection that loses [0]/0 after any other message of its peer is health/nodemanagement-lost-without-unannouncement/<what the message says about [0]>",
+			"the connection with the stalled writer: the writer blocks sends made by the connection's own reader goroutine while it handles an inbound message, until the case releases it after the second probe; sends by other goroutines pass (fan-out to a stalled subscriber would otherwise park the sender by design: writes are synchronous), and so do the sends DeviceLocal.HandleEvent makes from inside Events.Publish, which holds the process-wide event mutex while the core handler sends (observed design property, not judged). Only the other connections and the application are judged while it is stalled; the application does not send requests towards it (Sender.Request keeps the sender's mutex while writing). The connection itself is probed after the release",
+			"the mute connection cannot be written to: for it only 'the probe returns and does not panic' is judged",
+			"no message changes the local device, and the application's calls leave it as it was (the spare entity is removed again), so the discovery reply captured during the setup is what every later reply must say; the order of entities, features and supported functions is not compared. A probe made while the application goroutine runs ignores the spare entity",
+			"mutating API calls an application makes while and after the messages arrive (SetData, AddEntity, RemoveEntity, SubscribeToRemote, BindToRemote, RequestRemoteData, RemoveRemoteSubscription, RemoveRemoteBinding) must neither panic nor block: they are part of 'the stack still works'",
 			"the application-side call ApproveOrDenyWrite made from the harness's approval callback belongs to message handling: a panic in it is recorded with its frame and the World is abandoned",
 			"read-only API calls an application makes after the messages (UseCases, entity/feature walks, DataCopy, registries) must not panic either; they are part of 'the stack still works afterwards'",
 			"in the concurrent parts the order of the peers' messages is unknown, so a connection that lost its own [0]/0 there is attributed to its own peer; in the race part every data race report of the stack under inbound traffic is reported (a race on a map aborts the process with a fatal error nobody can recover)",
@@ -556,6 +568,7 @@ type c05StepT struct {
 	b                []byte
 	label, kind, mut string
 	valid            bool
+	unann            string // what the message announces away (c05Unannounces)
 }
 
 type c05Held struct {
@@ -581,6 +594,31 @@ type c05World struct {
 	mu          sync.Mutex
 	held        []c05Held
 	history     []string
+
+	// connection kinds (gap 1): 0 = ordinary tap, 1 = mute (nil writer), 2 = stalled writer
+	conn     []int
+	stall    *c05StallTap              // the writer of the stalled connection (nil if the case has none)
+	stallPi  int                       // index of the stalled peer, -1 if none
+	reader   *c05Reader                // the stalled connection's reader goroutine (sequential parts)
+	own      [][]string                // per peer: what each of its messages since the (re)connect says about [0] ("cause|class", see c05OwnNote)
+	nmCause  []string                  // per peer: why its [0]/0 is gone ("" = by no announcement of its own)
+	nmBy     []string                  // per peer: the message after which its [0]/0 was found gone
+	baseline string                    // canonical payload of the discovery reply captured during the setup
+	dd       api.FeatureLocalInterface // DeviceDiagnosis server on the nested entity [1,1]
+	spare    *spine.EntityLocal        // entity [2]: added and removed by the application while messages arrive
+	spareF   api.FeatureLocalInterface
+	spareIn  bool // owned by whoever runs the application calls
+	probes   int64
+	healthy  int64
+	d28      int64
+	rounds   int
+
+	// an application call made from inside a cascade (see c05Window)
+	spare2  *spine.EntityLocal // entity [3]: added and removed again by that call
+	winBusy int32
+	winLeft int32
+	winMu   sync.Mutex
+	winDone chan struct{}
 }
 
 func (cw *c05World) note(format string, a ...any) {
@@ -666,6 +704,7 @@ func c05Feats(lists []*rig.ListInfo) []rig.FS {
 		{Ent: []uint{1}, Id: 2, Typ: model.FeatureTypeTypeMeasurement, Role: model.RoleTypeServer, Fns: []model.FunctionPropertyType{rig.FnProp(model.FunctionTypeMeasurementListData, true, false)}, Desc: "meter"},
 		{Ent: []uint{1}, Id: 3, Typ: model.FeatureTypeTypeGeneric, Role: model.RoleTypeClient},
 		{Ent: []uint{1}, Id: 4, Typ: model.FeatureTypeTypeGeneric, Role: model.RoleTypeServer, Fns: gfn},
+		{Ent: []uint{1}, Id: 5, Typ: model.FeatureTypeTypeDeviceDiagnosis, Role: model.RoleTypeClient},
 		{Ent: []uint{1, 1}, Id: 1, Typ: model.FeatureTypeTypeMeasurement, Role: model.RoleTypeServer}}
 }
 
@@ -777,6 +816,22 @@ func newC05World(c *rig.Ctx) *c05World {
 	cw.mcl = e.GetOrAddFeature(model.FeatureTypeTypeMeasurement, model.RoleTypeClient) // [1]/2
 	cw.gsrv = e.GetOrAddFeature(model.FeatureTypeTypeGeneric, model.RoleTypeServer)    // [1]/3
 	cw.gcl = e.GetOrAddFeature(model.FeatureTypeTypeGeneric, model.RoleTypeClient)     // [1]/4
+	// a nested local entity [1,1] with a DeviceDiagnosis server: its heartbeat manager sets the heartbeat data on a
+	// goroutine of the stack once a second (durations on the wire have a resolution of a second), i.e. in a case that
+	// takes that long the stack notifies on its own initiative over whatever the messages left
+	ne := cw.w.AddEntity(model.EntityTypeTypeEV, []uint{1, 1}, time.Second)
+	cw.dd = ne.GetOrAddFeature(model.FeatureTypeTypeDeviceDiagnosis, model.RoleTypeServer) // [1,1]/1
+	cw.dd.AddFunctionType(model.FunctionTypeDeviceDiagnosisStateData, true, false)
+	cw.dd.AddFunctionType(model.FunctionTypeDeviceDiagnosisHeartbeatData, true, false)
+	cw.dd.SetData(model.FunctionTypeDeviceDiagnosisStateData, &model.DeviceDiagnosisStateDataType{OperatingState: util.Ptr(model.DeviceDiagnosisOperatingStateTypeNormalOperation)})
+	// the spare entity [2] is not part of the device until the application adds it
+	cw.spare = spine.NewEntityLocal(cw.w.Local, model.EntityTypeTypeCEM, spine.NewAddressEntityType([]uint{2}), 0) // same type as [1], on purpose
+	cw.spareF = cw.spare.GetOrAddFeature(model.FeatureTypeTypeMeasurement, model.RoleTypeServer)                   // [2]/1
+	cw.spareF.AddFunctionType(model.FunctionTypeMeasurementListData, true, false)
+	cw.spare2 = spine.NewEntityLocal(cw.w.Local, model.EntityTypeTypeCEM, spine.NewAddressEntityType([]uint{3}), 0)
+	cw.spare2.GetOrAddFeature(model.FeatureTypeTypeMeasurement, model.RoleTypeServer).AddFunctionType(model.FunctionTypeMeasurementListData, true, false)
+	cw.winLeft = 1
+	cw.stallPi = -1
 	gl := c05GenericLists()
 	for _, i := range r.Perm(len(gl))[:3] {
 		cw.lists = append(cw.lists, gl[i])
@@ -870,6 +925,22 @@ func (cw *c05World) corpus(p *rig.Peer, localReq *model.MsgCounterType) []c05Msg
 	add("destinationlist-read", read, nm, rig.LNM, false, nil, model.CmdType{NodeManagementDestinationListData: &model.NodeManagementDestinationListDataType{}})
 	add("destinationlist-reply", reply, nm, rig.LNM, false, ref, model.CmdType{NodeManagementDestinationListData: &model.NodeManagementDestinationListDataType{NodeManagementDestinationData: []model.NodeManagementDestinationDataType{{
 		DeviceDescription: &model.NetworkManagementDeviceDescriptionDataType{DeviceAddress: &model.DeviceAddressType{Device: util.Ptr(model.AddressDeviceType(p.Addr))}}}}}})
+	// the subscription every real peer makes: to the local NodeManagement [0]/0 (entity changes are notified to it)
+	add("subscription-request-nodemanagement", call, nm, rig.LNM, true, nil, model.CmdType{NodeManagementSubscriptionRequestCall: spine.NewNodeManagementSubscriptionRequestCallType(nm, rig.LNM, model.FeatureTypeTypeNodeManagement)})
+	add("subscription-delete-nodemanagement", call, nm, rig.LNM, true, nil, model.CmdType{NodeManagementSubscriptionDeleteCall: spine.NewNodeManagementSubscriptionDeleteCallType(nm, rig.LNM)})
+	// registry calls that name a local CLIENT feature as the server
+	add("binding-request-to-client-feature", call, nm, rig.LNM, true, nil, model.CmdType{NodeManagementBindingRequestCall: spine.NewNodeManagementBindingRequestCallType(msSrv, cw.mcl.Address(), model.FeatureTypeTypeMeasurement)})
+	add("subscription-request-to-client-feature", call, nm, rig.LNM, false, nil, model.CmdType{NodeManagementSubscriptionRequestCall: spine.NewNodeManagementSubscriptionRequestCallType(gSrv, cw.gcl.Address(), model.FeatureTypeTypeGeneric)})
+	// the nested local entity [1,1] and its DeviceDiagnosis server (heartbeat)
+	ddCl := rig.FA(p.Addr, []uint{1}, 5)
+	add("subscription-request-devicediagnosis", call, nm, rig.LNM, true, nil, model.CmdType{NodeManagementSubscriptionRequestCall: spine.NewNodeManagementSubscriptionRequestCallType(ddCl, cw.dd.Address(), model.FeatureTypeTypeDeviceDiagnosis)})
+	add("subscription-delete-devicediagnosis", call, nm, rig.LNM, false, nil, model.CmdType{NodeManagementSubscriptionDeleteCall: spine.NewNodeManagementSubscriptionDeleteCallType(ddCl, cw.dd.Address())})
+	add("read-nested-entity-heartbeat", read, ddCl, cw.dd.Address(), false, nil, model.CmdType{DeviceDiagnosisHeartbeatData: &model.DeviceDiagnosisHeartbeatDataType{}})
+	add("read-nested-entity-state", read, ddCl, cw.dd.Address(), true, nil, model.CmdType{DeviceDiagnosisStateData: &model.DeviceDiagnosisStateDataType{}})
+	add("write-nested-entity-readonly", write, ddCl, cw.dd.Address(), true, nil, model.CmdType{DeviceDiagnosisStateData: &model.DeviceDiagnosisStateDataType{OperatingState: util.Ptr(model.DeviceDiagnosisOperatingStateTypeFailure)}})
+	// the spare entity [2] exists only while the application has it added
+	add("read-spare-entity", read, msSrv, cw.spareF.Address(), false, nil, model.CmdType{MeasurementListData: &model.MeasurementListDataType{}})
+	add("subscription-request-spare-entity", call, nm, rig.LNM, true, nil, model.CmdType{NodeManagementSubscriptionRequestCall: spine.NewNodeManagementSubscriptionRequestCallType(gCl, cw.spareF.Address(), model.FeatureTypeTypeMeasurement)})
 	// LoadControl: read (plain, selector, elements) and write with each filter shape
 	fnL := util.Ptr(model.FunctionTypeLoadControlLimitListData)
 	lsel := &model.LoadControlLimitListDataSelectorsType{LimitId: util.Ptr(model.LoadControlLimitIdType(1))}
@@ -886,6 +957,21 @@ func (cw *c05World) corpus(p *rig.Peer, localReq *model.MsgCounterType) []c05Msg
 	add("write-partial", write, lcCl, cw.lc.Address(), true, nil, model.CmdType{Function: fnL, Filter: []model.FilterType{*model.NewFilterTypePartial()}, LoadControlLimitListData: lim})
 	add("write-partial-selector", write, lcCl, cw.lc.Address(), false, nil, model.CmdType{Function: fnL, Filter: []model.FilterType{*rsel}, LoadControlLimitListData: lim})
 	add("write-delete+partial", write, lcCl, cw.lc.Address(), true, nil, model.CmdType{Function: fnL, Filter: []model.FilterType{delS, *model.NewFilterTypePartial()}, LoadControlLimitListData: lim})
+	// two DIFFERENT commands in one datagram
+	add2 := func(kind string, cl model.CmdClassifierType, src, dst *model.FeatureAddressType, ack bool, cmds ...model.CmdType) {
+		d := rig.Datagram(cl, src, dst, p.NextCounter(), ack, nil, cmds[0])
+		d.Datagram.Payload.Cmd = append([]model.CmdType(nil), cmds...)
+		b, err := json.Marshal(d)
+		if err != nil {
+			panic("harness: corpus " + kind + ": " + err.Error())
+		}
+		out = append(out, c05Msg{kind: kind, b: b, write: cl == model.CmdClassifierTypeWrite})
+	}
+	add2("two-cmds-read", read, lcCl, cw.lc.Address(), false, model.CmdType{LoadControlLimitListData: &model.LoadControlLimitListDataType{}}, model.CmdType{LoadControlLimitDescriptionListData: &model.LoadControlLimitDescriptionListDataType{}})
+	add2("two-cmds-write", write, lcCl, cw.lc.Address(), true, model.CmdType{Function: fnL, Filter: []model.FilterType{*model.NewFilterTypePartial()}, LoadControlLimitListData: lim},
+		model.CmdType{Function: fnL, Filter: []model.FilterType{delS}, LoadControlLimitListData: &model.LoadControlLimitListDataType{}})
+	add2("two-cmds-call", call, nm, rig.LNM, true, model.CmdType{NodeManagementSubscriptionRequestCall: spine.NewNodeManagementSubscriptionRequestCallType(lcCl, cw.lc.Address(), model.FeatureTypeTypeLoadControl)},
+		model.CmdType{NodeManagementBindingRequestCall: spine.NewNodeManagementBindingRequestCallType(gCl, cw.gsrv.Address(), model.FeatureTypeTypeGeneric)})
 	// Measurement: reply, notify with each filter shape, result
 	fnM := util.Ptr(model.FunctionTypeMeasurementListData)
 	meas := &model.MeasurementListDataType{MeasurementData: []model.MeasurementDataType{{MeasurementId: util.Ptr(model.MeasurementIdType(1)), ValueType: util.Ptr(model.MeasurementValueTypeTypeValue), Timestamp: model.NewAbsoluteOrRelativeTimeType("2024-01-01T10:00:00Z"),
@@ -1176,7 +1262,7 @@ func c05Semantic(r *rand.Rand, root *c05Node, payloadOnly bool) string {
 			}
 		}
 		var nv []int
-		switch r.Intn(6) {
+		switch r.Intn(8) {
 		case 0:
 			nv = []int{0}
 		case 1:
@@ -1187,6 +1273,10 @@ func c05Semantic(r *rand.Rand, root *c05Node, payloadOnly bool) string {
 			nv = []int{2}
 		case 4:
 			nv = append(append([]int(nil), cur...), 1)
+		case 5:
+			nv = []int{0, 1} // a sub-entity of [0] that nobody announced
+		case 6:
+			nv = []int{} // present and empty
 		default:
 			nv = append([]int(nil), cur...)
 			if len(nv) > 0 {
@@ -1214,29 +1304,64 @@ func c05Semantic(r *rand.Rand, root *c05Node, payloadOnly bool) string {
 }
 
 // trackNM notes, after a message of peer `sender`, on which connections the peer's own NodeManagement [0]/0
-// stopped resolving. Only the peer itself may announce it away (known finding D28); a connection that loses
-// it through another peer's message is a violation.
-func (cw *c05World) trackNM(sender int, label string) {
+// stopped resolving. Only the peer itself may announce it away (known finding D28), and only by one of the three
+// announcements the finding describes (c05Unannounces decides that from the message alone, b is the message just
+// delivered). A connection that loses it through another peer's message is a violation here; one that loses it
+// through a message of its own that announces nothing away is reported by the health probe.
+// sender -1: the setup (nobody), -2: the concurrent phase (every loss is looked up in the peer's own messages).
+func (cw *c05World) trackNM(sender int, label string, b []byte) {
 	cw.call("FeatureByAddress on every connection", func() {
 		for qi, q := range cw.w.Peers {
 			for len(cw.nmGoneBy) <= qi {
 				cw.nmGoneBy = append(cw.nmGoneBy, -1)
+				cw.nmCause = append(cw.nmCause, "")
+				cw.nmBy = append(cw.nmBy, "")
+			}
+			for len(cw.own) <= qi {
+				cw.own = append(cw.own, nil)
 			}
 			gone := rig.IsNil(q.RD.FeatureByAddress(q.NM()))
 			sender := sender
-			if sender == -2 {
-				sender = qi // concurrent phase: the order of the peers' messages is not known, each peer is taken to have done it itself
+			// the order in which this connection's messages were handled relative to the others is not known in the
+			// concurrent phase and for the connection with the stalled writer (its reader runs on its own goroutine)
+			unordered := sender == -2 || (qi == cw.stallPi && sender >= 0)
+			if unordered {
+				sender = qi
 			}
 			switch {
 			case gone && cw.nmGoneBy[qi] < 0:
 				cw.nmGoneBy[qi] = sender
-				cw.note("-> peer %d's own [0]/0 no longer resolves after %s", qi, label)
+				cause, by := "", label
+				if unordered {
+					with0 := false
+					for _, u := range cw.own[qi] {
+						i := strings.Index(u, "|")
+						if i > 0 && cause == "" {
+							cause = u[:i]
+						}
+						with0 = with0 || strings.HasSuffix(u, "|after-an-announcement-of-[0]-with-feature-0")
+					}
+					by = "after-messages-of-its-own-none-of-which-names-[0]: " + label
+					if with0 {
+						by = "after-messages-of-its-own-one-of-which-announces-[0]-with-feature-0: " + label
+					}
+				} else if sender == qi {
+					var class string
+					cause, class = c05Announcement(b)
+					by = class + ": " + label + " :: " + fmt.Sprintf("%q", c05Clip(b, 2600))
+				}
+				cw.nmCause[qi], cw.nmBy[qi] = cause, by
+				cw.note("-> peer %d's own [0]/0 no longer resolves after %s (announced away: %q)", qi, label, cause)
+				if cause != "" {
+					cw.c.Count("nodemanagement_announced_away:"+cause, 1)
+				}
 				if sender != qi {
 					cw.c.Violate("health/nodemanagement-of-another-connection-removed", "after a message of peer %d the NodeManagement feature [0]/0 of peer %d's connection no longer resolves (%s)\nhistory:\n  %s", sender, qi, label, strings.Join(cw.hist(), "\n  "))
 					cw.c.Witness(cw.hist())
 				}
 			case !gone && cw.nmGoneBy[qi] >= 0:
 				cw.nmGoneBy[qi] = -1 // announced again
+				cw.nmCause[qi], cw.nmBy[qi] = "", ""
 			}
 		}
 	})
@@ -1310,11 +1435,546 @@ func c05Normalise(s string) string {
 	return s
 }
 
+func c05Clip(b []byte, n int) []byte {
+	if len(b) > n {
+		return append(append([]byte(nil), b[:n]...), "…"...)
+	}
+	return b
+}
+
 func c05ClipB(b []byte) string {
 	if len(b) > 900 {
 		return fmt.Sprintf("%q… (%d bytes)", b[:900], len(b))
 	}
 	return fmt.Sprintf("%q", b)
+}
+
+// ---------------------------------------------------------------------------
+// connection kinds beyond the ordinary tap
+
+// c05StallTap is the writer of a connection that does not take what the connection's OWN reader goroutine wants to
+// send while it handles an inbound message: the call blocks until the case releases it at its end. Datagrams sent by
+// any other goroutine (fan-out from another peer's message, the application, timers, the heartbeat) pass, and so do
+// the two requests DeviceLocal.HandleEvent sends from inside Events.Publish (that call holds the process-wide event
+// mutex by design, see the assumptions). A peer whose handler is parked in its writer is that peer's own business; what
+// is judged is that every OTHER connection and the application keep working meanwhile: a handler that sends while it
+// holds a lock other connections need wedges them, and the progress watchdog sees it.
+type c05StallTap struct {
+	tap     *rig.Tap
+	gate    chan struct{}
+	armed   int32
+	reader  int64 // goroutine id of the connection's reader
+	stalled int64 // sends that were held back
+	passed  int64 // sends made inside Events.Publish that were let through
+}
+
+func c05Goid() int64 {
+	var buf [64]byte
+	b := buf[:runtime.Stack(buf[:], false)] // "goroutine 123 [running]:..."
+	var id int64
+	for _, ch := range b[len("goroutine "):] {
+		if ch < '0' || ch > '9' {
+			break
+		}
+		id = id*10 + int64(ch-'0')
+	}
+	return id
+}
+
+func (t *c05StallTap) WriteShipMessageWithPayload(m []byte) {
+	if atomic.LoadInt32(&t.armed) != 0 && c05Goid() == atomic.LoadInt64(&t.reader) {
+		buf := make([]byte, 16<<10)
+		buf = buf[:runtime.Stack(buf, false)]
+		if bytes.Contains(buf, []byte("spine.(*events).Publish")) {
+			atomic.AddInt64(&t.passed, 1)
+		} else {
+			atomic.AddInt64(&t.stalled, 1)
+			<-t.gate
+		}
+	}
+	t.tap.WriteShipMessageWithPayload(m)
+}
+
+// c05Reader is the reader goroutine of the stalled connection in the sequential parts: the case enqueues the peer's
+// messages and goes on; the reader delivers them in order and parks in the writer at the first answer.
+type c05Reader struct {
+	q    chan c05StepT
+	done chan struct{}
+}
+
+func (cw *c05World) startReader(p *rig.Peer) {
+	rd := &c05Reader{q: make(chan c05StepT, 256), done: make(chan struct{})}
+	cw.reader = rd
+	ready := make(chan struct{})
+	go func() {
+		defer close(rd.done)
+		atomic.StoreInt64(&cw.stall.reader, c05Goid())
+		close(ready)
+		for st := range rd.q {
+			if atomic.LoadInt32(&cw.abandoned) != 0 {
+				continue
+			}
+			cw.deliverDirect(p, st)
+		}
+	}()
+	<-ready
+}
+
+// release opens the stalled writer and waits (under the watchdog) until the connection's reader has delivered what
+// was queued. wait is nil in the concurrent parts, where the caller joins the peer's goroutine itself.
+func (cw *c05World) release() {
+	if cw.stall == nil || atomic.LoadInt32(&cw.stall.armed) == 0 {
+		return
+	}
+	atomic.StoreInt32(&cw.stall.armed, 0)
+	close(cw.stall.gate)
+	cw.c.Count("stalled_sends_held_back", atomic.LoadInt64(&cw.stall.stalled))
+	cw.c.Count("stalled_sends_passed_inside_publish", atomic.LoadInt64(&cw.stall.passed))
+	if atomic.LoadInt64(&cw.stall.stalled) > 0 {
+		cw.c.Count("cases_with_a_handler_parked_in_the_stalled_writer", 1)
+	}
+	if cw.reader != nil {
+		close(cw.reader.q)
+		rd := cw.reader
+		cw.reader = nil
+		cw.call("draining the released connection", func() { <-rd.done })
+	}
+}
+
+// ---------------------------------------------------------------------------
+// what the application does while and after the messages arrive (beyond answering approval requests)
+
+type c05AppOp struct {
+	kind   int
+	ski    string // the peer the call is aimed at (never the one with the stalled writer: Sender.Request keeps the
+	addr   string // sender's own mutex while it writes, so a request towards it would wait for the release by design)
+	seed   int64
+	remove bool
+	fn     model.FunctionType // kinds 1 and 6: drawn when the plan is made (the generators run on the case's goroutine only)
+	data   any
+}
+
+var c05AppKinds = []string{"SetData(LoadControl server)", "SetData(Generic server)", "AddEntity/RemoveEntity(spare entity [2])", "SubscribeToRemote(Measurement)", "BindToRemote(Generic)",
+	"RequestRemoteData(Measurement)", "RequestRemoteData(Generic list)", "RemoveRemoteSubscription/RemoveRemoteBinding", "SetData(spare entity)", "SetData(DeviceDiagnosis state)"}
+
+func (op c05AppOp) String() string {
+	return fmt.Sprintf("application: %s towards %s", c05AppKinds[op.kind], op.addr)
+}
+
+// appPlan draws n application calls (all kinds once if n < 0).
+func (cw *c05World) appPlan(r *rand.Rand, n int) []c05AppOp {
+	type tg struct{ ski, addr string }
+	var tgs []tg
+	for pi, p := range cw.w.Peers {
+		if pi != cw.stallPi {
+			tgs = append(tgs, tg{p.Ski, p.Addr})
+		}
+	}
+	var out []c05AppOp
+	mk := func(kind int) {
+		t := tgs[r.Intn(len(tgs))]
+		op := c05AppOp{kind: kind, ski: t.ski, addr: t.addr, seed: r.Int63(), remove: r.Intn(2) == 0}
+		li := cw.lists[r.Intn(len(cw.lists))]
+		op.fn = li.Fn
+		if kind == 1 {
+			if u, ok := li.GenUpdate(r, 0, 3); ok {
+				op.data = li.MkList(rig.CloneItems(u.Items))
+			}
+		}
+		out = append(out, op)
+	}
+	if n < 0 {
+		for k := range c05AppKinds {
+			mk(k)
+			if k == 2 {
+				mk(8)
+				mk(2) // added, used, removed again
+			}
+		}
+		return out
+	}
+	for i := 0; i < n; i++ {
+		mk(r.Intn(len(c05AppKinds)))
+	}
+	return out
+}
+
+// appDo makes one application call. It runs on the goroutine that owns cw.spareIn; the caller guards it.
+func (cw *c05World) appDo(op c05AppOp) {
+	ar := rand.New(rand.NewSource(op.seed))
+	remote := func(ent []uint, f uint) api.FeatureRemoteInterface {
+		rd := cw.w.Local.RemoteDeviceForSki(op.ski)
+		if rd == nil {
+			return nil // between the two halves of a reconnect
+		}
+		rf := rd.FeatureByAddress(rig.FA(op.addr, ent, f))
+		if rig.IsNil(rf) {
+			return nil
+		}
+		return rf
+	}
+	switch op.kind {
+	case 0:
+		cw.lc.SetData(model.FunctionTypeLoadControlLimitListData, &model.LoadControlLimitListDataType{LoadControlLimitData: []model.LoadControlLimitDataType{
+			{LimitId: util.Ptr(model.LoadControlLimitIdType(1)), IsLimitChangeable: util.Ptr(true), IsLimitActive: util.Ptr(ar.Intn(2) == 0), Value: model.NewScaledNumberType(float64(ar.Intn(32)))},
+			{LimitId: util.Ptr(model.LoadControlLimitIdType(2)), IsLimitChangeable: util.Ptr(false), Value: model.NewScaledNumberType(20)}}})
+	case 1:
+		if op.data != nil {
+			cw.gsrv.SetData(op.fn, op.data)
+		}
+	case 2:
+		if cw.spareIn {
+			cw.w.Local.RemoveEntity(cw.spare)
+		} else {
+			cw.w.Local.AddEntity(cw.spare)
+		}
+		cw.spareIn = !cw.spareIn
+	case 3:
+		_, _ = cw.mcl.SubscribeToRemote(rig.FA(op.addr, []uint{1}, 2))
+	case 4:
+		_, _ = cw.gcl.BindToRemote(rig.FA(op.addr, []uint{1}, 4))
+	case 5:
+		if rf := remote([]uint{1}, 2); rf != nil {
+			_, _ = cw.mcl.RequestRemoteData(model.FunctionTypeMeasurementListData, nil, nil, rf)
+		}
+	case 6:
+		if rf := remote([]uint{1}, 4); rf != nil {
+			_, _ = cw.gcl.RequestRemoteData(op.fn, nil, nil, rf)
+		}
+	case 7:
+		if op.remove {
+			_, _ = cw.mcl.RemoveRemoteSubscription(rig.FA(op.addr, []uint{1}, 2))
+		} else {
+			_, _ = cw.gcl.RemoveRemoteBinding(rig.FA(op.addr, []uint{1}, 4))
+		}
+	case 8:
+		cw.spareF.SetData(model.FunctionTypeMeasurementListData, &model.MeasurementListDataType{MeasurementData: []model.MeasurementDataType{{MeasurementId: util.Ptr(model.MeasurementIdType(1)), Value: model.NewScaledNumberType(float64(ar.Intn(100)))}}})
+	default:
+		cw.dd.SetData(model.FunctionTypeDeviceDiagnosisStateData, &model.DeviceDiagnosisStateDataType{OperatingState: util.Ptr([]model.DeviceDiagnosisOperatingStateType{model.DeviceDiagnosisOperatingStateTypeNormalOperation, model.DeviceDiagnosisOperatingStateTypeStandby}[ar.Intn(2)])})
+	}
+}
+
+// appGuarded makes the call on the calling goroutine and turns a panic into a violation (concurrent phase: the
+// phase as a whole is under the watchdog).
+func (cw *c05World) appGuarded(op c05AppOp) (ok bool) {
+	defer func() {
+		if r := recover(); r != nil {
+			buf := make([]byte, 16<<10)
+			buf = buf[:runtime.Stack(buf, false)]
+			atomic.StoreInt32(&cw.abandoned, 1)
+			cw.c.Violate("application-call-panic@"+c05Frame(string(buf)), "%s panicked while the peers deliver: %v\n%s\nhistory:\n  %s", op, r, buf, strings.Join(cw.hist(), "\n  "))
+			ok = false
+		}
+	}()
+	cw.appDo(op)
+	cw.c.Count("application_calls", 1)
+	cw.c.Count("application_call:"+c05AppKinds[op.kind], 1)
+	return true
+}
+
+// c05Window is a core-level event handler: it is called synchronously from Events.Publish, i.e. INSIDE whatever the
+// stack is doing when it publishes. On the first "removed" event of a case (a subscription or binding that goes with
+// its entity or device, an entity that is announced away: reconnect, removal notify, teardown) it lets the application
+// add and remove an entity and set data on a goroutine of its own, and gives that goroutine a millisecond to run into
+// the window before the stack goes on (a scheduling nudge, no verdict depends on it). The stack publishes these events
+// from inside its registries' critical sections, which is where an application call that takes the same locks in
+// another order meets them. The call is joined under the watchdog before every probe and before the case ends.
+type c05Window struct{ cw *c05World }
+
+func (h *c05Window) HandleEvent(p api.EventPayload) {
+	cw := h.cw
+	if p.ChangeType != api.ElementChangeRemove || !strings.HasPrefix(p.Ski, cw.w.Tag) {
+		return
+	}
+	if p.EventType != api.EventTypeSubscriptionChange && p.EventType != api.EventTypeBindingChange && p.EventType != api.EventTypeEntityChange {
+		return
+	}
+	if !atomic.CompareAndSwapInt32(&cw.winBusy, 0, 1) {
+		return
+	}
+	if atomic.AddInt32(&cw.winLeft, -1) < 0 || atomic.LoadInt32(&cw.abandoned) != 0 {
+		atomic.StoreInt32(&cw.winBusy, 0)
+		return
+	}
+	done := make(chan struct{})
+	cw.winMu.Lock()
+	cw.winDone = done
+	cw.winMu.Unlock()
+	cw.c.Count("application_calls_inside_a_cascade", 1)
+	go func() {
+		defer close(done)
+		defer atomic.StoreInt32(&cw.winBusy, 0)
+		defer func() {
+			if r := recover(); r != nil {
+				buf := make([]byte, 16<<10)
+				buf = buf[:runtime.Stack(buf, false)]
+				atomic.StoreInt32(&cw.abandoned, 1)
+				cw.c.Violate("application-call-panic@"+c05Frame(string(buf)), "AddEntity/RemoveEntity/SetData called while the stack publishes a removal event panicked: %v\n%s\nhistory:\n  %s", r, buf, strings.Join(cw.hist(), "\n  "))
+			}
+		}()
+		cw.w.Local.AddEntity(cw.spare2)
+		cw.w.Local.RemoveEntity(cw.spare2)
+		cw.dd.SetData(model.FunctionTypeDeviceDiagnosisStateData, &model.DeviceDiagnosisStateDataType{OperatingState: util.Ptr(model.DeviceDiagnosisOperatingStateTypeStandby)})
+	}()
+	select {
+	case <-done:
+	case <-time.After(time.Millisecond):
+	}
+}
+
+// winWait joins the application call made from inside a cascade, if one is running.
+func (cw *c05World) winWait() {
+	cw.winMu.Lock()
+	done := cw.winDone
+	cw.winMu.Unlock()
+	if done != nil {
+		cw.call("the application's AddEntity/RemoveEntity/SetData made while a removal event was published", func() { <-done })
+	}
+}
+
+// ---------------------------------------------------------------------------
+// what a message announces away, decided from the message alone (known finding D28)
+
+// c05Unannounces returns which of the three announcements the known finding D28 describes the message is: a partial
+// discovery notify that removes [0], a full discovery notify that does not list [0], or a discovery reply / partial
+// notify "added" that lists [0] without a description of its feature 0. "" for every other message, in particular
+// for every message that is no datagram.
+func c05Unannounces(b []byte) string {
+	cause, _ := c05Announcement(b)
+	return cause
+}
+
+// c05OwnNote is what is remembered of a message whose place in the order of events is not known: "cause|class".
+func c05OwnNote(b []byte) string {
+	cause, class := c05Announcement(b)
+	return cause + "|" + class
+}
+
+// c05Announcement returns, besides the D28 cause, what else the message says about [0] (for the signature of a loss
+// that no announcement explains): it lists [0] together with a description of feature 0, it is a discovery message
+// that says nothing of the kind about [0], or it carries no discovery data at all.
+func c05Announcement(b []byte) (cause, class string) {
+	const none = "after-a-message-without-discovery-data"
+	var d model.Datagram
+	if json.Unmarshal(b, &d) != nil {
+		return "", none
+	}
+	h := d.Datagram.Header
+	if h.CmdClassifier == nil || len(d.Datagram.Payload.Cmd) == 0 {
+		return "", none
+	}
+	cmd := d.Datagram.Payload.Cmd[0]
+	dd := cmd.NodeManagementDetailedDiscoveryData
+	if dd == nil {
+		return "", none
+	}
+	root := func(e []model.AddressEntityType) bool { return len(e) == 1 && e[0] == 0 }
+	feature0 := false
+	for _, fi := range dd.FeatureInformation {
+		// feature 0 counts as announced only if the description makes it the NodeManagement feature: a description
+		// of [0]/0 without type or role, or with another type or role, announces the peer's NodeManagement away
+		// just as one that leaves it out (the stack skips a description it cannot build a feature from)
+		if fi.Description != nil && fi.Description.FeatureAddress != nil && root(fi.Description.FeatureAddress.Entity) && fi.Description.FeatureAddress.Feature != nil && *fi.Description.FeatureAddress.Feature == 0 &&
+			fi.Description.FeatureType != nil && *fi.Description.FeatureType == model.FeatureTypeTypeNodeManagement &&
+			fi.Description.Role != nil && *fi.Description.Role == model.RoleTypeSpecial {
+			feature0 = true
+		}
+	}
+	partial := false
+	for _, f := range cmd.Filter {
+		if f.CmdControl != nil && f.CmdControl.Partial != nil {
+			partial = true
+		}
+	}
+	listed, removed, added := false, false, false
+	for _, ei := range dd.EntityInformation {
+		if ei.Description == nil || ei.Description.EntityAddress == nil || !root(ei.Description.EntityAddress.Entity) {
+			continue
+		}
+		listed = true
+		if sc := ei.Description.LastStateChange; sc != nil {
+			removed = removed || *sc == model.NetworkManagementStateChangeTypeRemoved
+			added = added || *sc == model.NetworkManagementStateChangeTypeAdded
+		}
+	}
+	const with0, silent = "after-an-announcement-of-[0]-with-feature-0", "after-a-discovery-message-that-announces-nothing-about-[0]"
+	switch *h.CmdClassifier {
+	case model.CmdClassifierTypeReply:
+		if listed && !feature0 {
+			return "reply lists [0] without feature 0", ""
+		}
+		if listed {
+			return "", with0
+		}
+	case model.CmdClassifierTypeNotify:
+		switch {
+		case partial && removed:
+			return "partial notify removes [0]", ""
+		case partial && added && !feature0:
+			return "partial notify adds [0] without feature 0", ""
+		case !partial && !listed:
+			return "full notify omits [0]", ""
+		case partial && added:
+			return "", with0
+		}
+	}
+	return "", silent
+}
+
+// ---------------------------------------------------------------------------
+// the discovery reply in canonical form
+
+// c05CanonDiscovery renders the payload of a discovery reply independent of list order (the supported functions come
+// out of a map). dropSpare leaves out the spare entity [2] (probes made while the application adds and removes it).
+func c05CanonDiscovery(d model.DatagramType, dropSpare bool) string {
+	if len(d.Payload.Cmd) != 1 {
+		return fmt.Sprintf("%d commands", len(d.Payload.Cmd))
+	}
+	cmd := d.Payload.Cmd[0]
+	dd := cmd.NodeManagementDetailedDiscoveryData
+	if dd == nil {
+		return "no discovery data: " + rig.JS(cmd)
+	}
+	// entity [3] comes and goes with the application call made from inside a cascade, which may run at any time
+	spare := func(e []model.AddressEntityType) bool { return len(e) == 1 && (e[0] == 3 || (dropSpare && e[0] == 2)) }
+	var ents, feats []string
+	for _, ei := range dd.EntityInformation {
+		if ei.Description != nil && ei.Description.EntityAddress != nil && spare(ei.Description.EntityAddress.Entity) {
+			continue
+		}
+		ents = append(ents, rig.JS(ei))
+	}
+	for _, fi := range dd.FeatureInformation {
+		if fi.Description != nil {
+			if fi.Description.FeatureAddress != nil && spare(fi.Description.FeatureAddress.Entity) {
+				continue
+			}
+			cp := *fi.Description
+			cp.SupportedFunction = append([]model.FunctionPropertyType(nil), cp.SupportedFunction...)
+			sort.Slice(cp.SupportedFunction, func(i, j int) bool { return rig.JS(cp.SupportedFunction[i]) < rig.JS(cp.SupportedFunction[j]) })
+			fi.Description = &cp
+		}
+		feats = append(feats, rig.JS(fi))
+	}
+	sort.Strings(ents)
+	sort.Strings(feats)
+	extra := ""
+	if cmd.Function != nil || len(cmd.Filter) > 0 {
+		extra = fmt.Sprintf(" function=%s filter=%s", rig.JS(cmd.Function), rig.JS(cmd.Filter))
+	}
+	return fmt.Sprintf("versions=%s device=%s entities=[%s] features=[%s]%s", rig.JS(dd.SpecificationVersionList), rig.JS(dd.DeviceInformation), strings.Join(ents, " "), strings.Join(feats, " "), extra)
+}
+
+// c05Diff shows where two canonical renderings part.
+func c05Diff(a, b string) string {
+	i := 0
+	for i < len(a) && i < len(b) && a[i] == b[i] {
+		i++
+	}
+	from := i - 80
+	if from < 0 {
+		from = 0
+	}
+	clip := func(s string) string {
+		to := i + 200
+		if to > len(s) {
+			to = len(s)
+		}
+		if from > len(s) {
+			return ""
+		}
+		return s[from:to]
+	}
+	return fmt.Sprintf("first difference at byte %d (lengths %d / %d)\n   expected …%s…\n   observed …%s…", i, len(a), len(b), clip(a), clip(b))
+}
+
+// probe delivers a valid detailed discovery read on connection pi and judges the answer. lenient: the application
+// adds and removes the spare entity meanwhile, which is left out of the comparison. false: the World is abandoned.
+func (cw *c05World) probe(pi int, when string, lenient bool) bool {
+	c, p := cw.c, cw.w.Peers[pi]
+	if pi == cw.stallPi && cw.stall != nil && atomic.LoadInt32(&cw.stall.armed) != 0 {
+		return true // its reader is (or will be) parked in the writer: probed after the release
+	}
+	if !lenient {
+		cw.winWait() // the entity that call adds is removed again when it returns
+	}
+	p.Tap.Take()
+	var mc model.MsgCounterType
+	n0 := p.PanicCount()
+	if pn := cw.call(fmt.Sprintf("health probe (%s) on peer %d", when, pi), func() {
+		mc = p.Send(model.CmdClassifierTypeRead, p.NM(), rig.LNM, false, nil, model.CmdType{NodeManagementDetailedDiscoveryData: &model.NodeManagementDetailedDiscoveryDataType{}})
+	}); pn != "" {
+		c.Violate("harness-panic", "health probe: %s", pn)
+		return false
+	}
+	if atomic.LoadInt32(&cw.abandoned) != 0 {
+		return false
+	}
+	if p.PanicCount() > n0 {
+		st := p.Panics[len(p.Panics)-1]
+		c.Violate("health/panic@"+c05Frame(st), "the health probe (%s) on peer %d panicked: %s\nhistory:\n  %s", when, pi, st, strings.Join(cw.hist(), "\n  "))
+		atomic.StoreInt32(&cw.abandoned, 1)
+		c.Witness(cw.hist())
+		return false
+	}
+	if cw.conn[pi] == 1 {
+		c.Count("health_mute_connection_probe_returned", 1) // nothing can be written to it: only "returns, does not panic" is judged
+		return true
+	}
+	outs := p.Tap.Take()
+	rr := rig.Classify(outs, mc)
+	atomic.AddInt64(&cw.probes, 1)
+	c.Events(1)
+	okReply := rr.Replies == 1 && rr.Errors == 0 && rr.OtherRef == 0
+	var nmGone bool
+	cw.call("FeatureByAddress", func() { nmGone = rig.IsNil(p.RD.FeatureByAddress(p.NM())) })
+	ownLoss := pi < len(cw.nmGoneBy) && cw.nmGoneBy[pi] == pi
+	switch {
+	case okReply:
+		d := rr.All[0]
+		hasData := len(d.Payload.Cmd) == 1 && d.Payload.Cmd[0].NodeManagementDetailedDiscoveryData != nil && d.Payload.Cmd[0].NodeManagementDetailedDiscoveryData.DeviceInformation != nil
+		canon := c05CanonDiscovery(d, lenient)
+		switch {
+		case !hasData:
+			c.Violate("health/reply-without-discovery-data", "%s, peer %d (state %d): the reply to the discovery read carries no discovery data: %s\nhistory:\n  %s", when, pi, cw.states[pi], rig.JS(rr.All), strings.Join(cw.hist(), "\n  "))
+			c.Witness(cw.hist())
+		case rig.JS(d.Header.AddressSource) != rig.JS(rig.LNM) || rig.JS(d.Header.AddressDestination) != rig.JS(p.NM()):
+			// the answer goes from the feature that was asked to the feature that asked
+			c.Violate("health/reply-misaddressed", "%s, peer %d (state %d): the discovery read %s -> %s (counter %d) was answered by a reply addressed %s -> %s\nhistory:\n  %s", when, pi, cw.states[pi],
+				rig.JS(p.NM()), rig.JS(rig.LNM), mc, rig.JS(d.Header.AddressSource), rig.JS(d.Header.AddressDestination), strings.Join(cw.hist(), "\n  "))
+			c.Witness(cw.hist())
+		case cw.baseline == "":
+			cw.baseline = canon // the setup's first reply; the local device is the same for every peer and is not changed by any message
+			atomic.AddInt64(&cw.healthy, 1)
+		case canon != cw.baseline:
+			c.Violate("health/reply-differs-from-setup", "%s, peer %d (state %d): the reply to the discovery read no longer describes the local device as the reply captured during the setup did (no message changes the local device)\n  %s\nhistory:\n  %s",
+				when, pi, cw.states[pi], c05Diff(cw.baseline, canon), strings.Join(cw.hist(), "\n  "))
+			c.Witness(cw.hist())
+		default:
+			atomic.AddInt64(&cw.healthy, 1)
+			c.Count("health_ok", 1)
+			c.Count("health_reply_payload_and_addressing_compared", 1)
+		}
+	case nmGone && ownLoss && cw.nmCause[pi] != "":
+		atomic.AddInt64(&cw.d28, 1)
+		c.Count("health_peer_unannounced_own_nodemanagement", 1)
+		c.Violate("health/peer-unannounced-own-nodemanagement", "%s, peer %d (state %d) un-announced its own [0]/0 (%s) and is no longer served (%s)\n by: %s\nhistory:\n  %s", when, pi, cw.states[pi], cw.nmCause[pi], rr, cw.nmBy[pi], strings.Join(cw.hist(), "\n  "))
+	case nmGone && ownLoss:
+		// the connection lost [0]/0 after a message of its own peer that announces nothing of the kind away
+		c.Count("health_nodemanagement_lost_without_unannouncement", 1)
+		class := cw.nmBy[pi]
+		if i := strings.Index(class, ": "); i >= 0 {
+			class = class[:i]
+		}
+		c.Violate("health/nodemanagement-lost-without-unannouncement/"+class, "%s, peer %d (state %d): [0]/0 of the connection no longer resolves and the peer is no longer served (%s), but no message of the peer removed [0], omitted [0] from a full notification or listed [0] without feature 0\n lost after: %s\nhistory:\n  %s",
+			when, pi, cw.states[pi], rr, cw.nmBy[pi], strings.Join(cw.hist(), "\n  "))
+		c.Witness(cw.hist())
+	default:
+		c.Violate(fmt.Sprintf("health/probe-unanswered/replies=%d,errors=%d", rr.Replies, rr.Errors), "%s, peer %d (state %d): a valid detailed discovery read (counter %d) on a connection whose [0]/0 %s yielded %s, written to the connection: %s\nhistory:\n  %s",
+			when, pi, cw.states[pi], mc, map[bool]string{false: "still resolves", true: "was not announced away by this peer itself"}[nmGone], rr, rig.JS(outs), strings.Join(cw.hist(), "\n  "))
+		c.Witness(cw.hist())
+	}
+	return true
 }
 
 // ---------------------------------------------------------------------------
@@ -1348,14 +2008,46 @@ func c05Case(c *rig.Ctx) {
 			c.Violate("teardown-panic@"+c05Frame(p), "teardown panicked: %s\nhistory:\n  %s", p, strings.Join(cw.hist(), "\n  "))
 		}
 	}
+	win := &c05Window{cw}
+	_ = spine.VerifSubscribeCore(win)
+	defer func() { _ = spine.VerifUnsubscribeCore(win) }() // after the teardown, whose cascades are windows too
 	defer closeWorld()
 
 	// --- peers in their connection states
 	np := 2 + r.Intn(2)
+	special := 0 // connection kind of the LAST peer: 0 ordinary, 1 mute (nil writer), 2 stalled writer
+	if x := r.Intn(10); x < 2 {
+		special = 1
+	} else if x < 4 {
+		special = 2
+	}
+	if special != 0 {
+		np = 3 // there are always two ordinary connections whose probes are judged
+	}
 	localReqs := make([]*model.MsgCounterType, np)
 	boundLC, boundG := -1, -1
 	for i := 0; i < np; i++ {
-		p := w.AddPeer(i)
+		var p *rig.Peer
+		kind := 0
+		if i == np-1 {
+			kind = special
+		}
+		switch kind {
+		case 1:
+			p = addMutePeer(w, i)
+			p.Addr = fmt.Sprintf("dev%d", i) // numbered like every other peer
+			w.Peers = append(w.Peers, p)     // World.Close removes its connection
+		case 2:
+			p = &rig.Peer{Ski: fmt.Sprintf("%s-ski%d", w.Tag, i), Addr: fmt.Sprintf("dev%d", i), Tap: &rig.Tap{}, W: w}
+			cw.stall = &c05StallTap{tap: p.Tap, gate: make(chan struct{})}
+			cw.stallPi = i
+			w.Local.SetupRemoteDevice(p.Ski, cw.stall) // not armed yet: the setup goes through
+			p.RD = w.Local.RemoteDeviceForSki(p.Ski)
+			w.Peers = append(w.Peers, p)
+		default:
+			p = w.AddPeer(i)
+		}
+		cw.conn = append(cw.conn, kind)
 		p.Ctr = uint64(i+1) * 100000
 		st := r.Intn(4)
 		if cw.approvals > 0 && i == 0 {
@@ -1364,10 +2056,11 @@ func c05Case(c *rig.Ctx) {
 		if cw.aimed && i == 0 {
 			st = 2
 		}
-		if cw.concurrent && st == 0 {
-			st = 1 + r.Intn(3) // every peer can deliver replies to local requests
+		if (cw.concurrent || kind != 0) && st == 0 {
+			st = 1 + r.Intn(3) // every peer can deliver replies to local requests; a mute or stalled peer is one the stack sends to
 		}
 		cw.states = append(cw.states, st)
+		c.Count("connection_kind:"+[]string{"tap", "mute", "stalled"}[kind], 1)
 		feats := c05Feats(cw.lists)
 		ok := cw.stack("setup-panic", fmt.Sprintf("setting up peer %d in state %d", i, st), func() {
 			if st >= 1 {
@@ -1385,6 +2078,10 @@ func c05Case(c *rig.Ctx) {
 			if st >= 2 {
 				p.Subscribe(rig.FA(p.Addr, []uint{1}, 1), cw.lc.Address(), model.FeatureTypeTypeLoadControl)
 				p.Subscribe(rig.FA(p.Addr, []uint{1}, 3), cw.gsrv.Address(), model.FeatureTypeTypeGeneric)
+				if r.Intn(2) == 0 {
+					p.Subscribe(p.NM(), rig.LNM, model.FeatureTypeTypeNodeManagement) // entity changes of the local device are notified to it
+					p.Subscribe(rig.FA(p.Addr, []uint{1}, 5), cw.dd.Address(), model.FeatureTypeTypeDeviceDiagnosis)
+				}
 				if boundLC < 0 && (cw.approvals > 0 || r.Intn(3) != 0) {
 					p.Bind(rig.FA(p.Addr, []uint{1}, 1), cw.lc.Address(), model.FeatureTypeTypeLoadControl)
 					boundLC = i
@@ -1399,6 +2096,10 @@ func c05Case(c *rig.Ctx) {
 			c.Witness(cw.hist())
 			return
 		}
+	}
+	if special == 1 && w.Peers[np-1].Tap.Total() != 0 {
+		c.Violate("harness-panic", "the mute peer's tap received a datagram: it is not mute")
+		return
 	}
 	corp := make([][]c05Msg, np)
 	for i, p := range w.Peers {
@@ -1430,7 +2131,24 @@ func c05Case(c *rig.Ctx) {
 		p.Tap.Take()
 	}
 	w.Core.Take()
-	cw.trackNM(-1, "the setup")
+	cw.trackNM(-1, "the setup", nil)
+	// the probe on the untouched World: its reply is what every later reply is compared with
+	for pi := range w.Peers {
+		if !cw.probe(pi, "during the setup", false) {
+			return
+		}
+	}
+	if cw.baseline == "" {
+		c.Inconclusive("no discovery reply could be captured during the setup")
+		return
+	}
+	if cw.stall != nil {
+		atomic.StoreInt32(&cw.stall.armed, 1)
+		if !cw.concurrent {
+			cw.startReader(w.Peers[cw.stallPi])
+		}
+		defer cw.release() // runs before closeWorld (deferred earlier): the teardown never meets a parked handler
+	}
 
 	// --- the messages
 	nmsg := 10 + r.Intn(11)
@@ -1438,8 +2156,49 @@ func c05Case(c *rig.Ctx) {
 	mutated, decodable, delivered := 0, 0, 0
 	pendingCheck := false
 	registryKinds := map[string]bool{"binding-request": true, "binding-delete": true, "binding-request-generic": true, "binding-delete-generic": true,
-		"subscription-request": true, "subscription-delete": true, "subscription-request-generic": true, "subscription-delete-generic": true}
+		"subscription-request": true, "subscription-delete": true, "subscription-request-generic": true, "subscription-delete-generic": true,
+		"subscription-request-nodemanagement": true, "subscription-delete-nodemanagement": true, "subscription-request-devicediagnosis": true, "subscription-delete-devicediagnosis": true,
+		"binding-request-to-client-feature": true, "subscription-request-to-client-feature": true}
 	type c05Step = c05StepT
+	// a reconnect in the middle of the case (an ordinary connection), followed at once by a probe of the new connection
+	recPi, recAt, recAnnounce := -1, -1, false
+	if r.Intn(4) == 0 {
+		recPi, recAt, recAnnounce = r.Intn(2), 1+r.Intn(nmsg-1), r.Intn(2) == 0 // peers 0 and 1 are always ordinary
+	}
+	// reconnect drops and re-establishes connection pi and probes it; it runs on the goroutine that delivers pi's messages
+	reconnect := func(pi int, lenient bool) bool {
+		p := w.Peers[pi]
+		cw.note("peer %d reconnects (announces itself again: %v)", pi, recAnnounce)
+		c.Count("reconnects_in_the_middle", 1)
+		if !cw.stack("reconnect-panic", fmt.Sprintf("RemoveRemoteDeviceConnection + SetupRemoteDevice of peer %d", pi), func() { w.Reconnect(p) }) {
+			return false
+		}
+		p.Tap.Take()
+		if recAnnounce {
+			if !cw.stack("setup-panic", fmt.Sprintf("peer %d announces itself after the reconnect", pi), func() { p.Announce(c05Feats(cw.lists)) }) {
+				return false
+			}
+		}
+		return cw.probe(pi, "right after the reconnect", lenient)
+	}
+	afterReconnect := func(pi int) { // bookkeeping, on the case's goroutine
+		cw.states[pi] = 0
+		if recAnnounce {
+			cw.states[pi] = 1
+		}
+		if pi < len(cw.nmGoneBy) {
+			cw.nmGoneBy[pi], cw.nmCause[pi], cw.nmBy[pi] = -1, "", ""
+		}
+		if pi < len(cw.own) {
+			cw.own[pi] = nil
+		}
+		if boundLC == pi {
+			boundLC = -1
+		}
+		if boundG == pi {
+			boundG = -1
+		}
+	}
 	// next draws message k (sender, bytes, entry point); forPeer >= 0 fixes the sender
 	next := func(k, forPeer int) c05Step {
 		pi := r.Intn(np)
@@ -1521,10 +2280,13 @@ func c05Case(c *rig.Ctx) {
 			c.Count("valid_messages", 1)
 		}
 		c.Seen("corpus_kinds", strings.SplitN(st.kind, "|", 2)[0])
-		st.label = fmt.Sprintf("#%d peer%d(state %d) %s [%s] via %s", k, pi, cw.states[pi], st.kind, st.mut, entry)
-		shape = append(shape, fmt.Sprintf("%d/%s/%s/%d", cw.states[pi], st.kind, st.mut, st.mode))
+		c.Count("peer_connection:"+[]string{"tap", "mute", "stalled"}[cw.conn[pi]], 1)
+		st.unann = c05OwnNote(st.b)
+		st.label = fmt.Sprintf("#%d peer%d(state %d%s) %s [%s] via %s", k, pi, cw.states[pi], []string{"", "/mute", "/stalled"}[cw.conn[pi]], st.kind, st.mut, entry)
+		shape = append(shape, fmt.Sprintf("%d.%d/%s/%s/%d", cw.states[pi], cw.conn[pi], st.kind, st.mut, st.mode))
 		return st
 	}
+	joinStalled := func() bool { return true } // concurrent parts: joins the goroutine of the stalled connection after the release
 	if cw.concurrent {
 		// every peer delivers its own sequence on its own goroutine, as the SHIP readers of the connections do
 		seqs := make([][]c05Step, np)
@@ -1565,15 +2327,30 @@ func c05Case(c *rig.Ctx) {
 				cw.note("%s :: %s", st.label, c05ClipB(st.b))
 			}
 		}
+		// the application works meanwhile on a goroutine of its own: it changes local data (notified to whoever
+		// subscribed), adds and removes the spare entity, and subscribes / binds / reads towards the peers
+		plan := cw.appPlan(r, 8+r.Intn(9))
+		for _, op := range plan {
+			cw.note("%s (concurrently)", op)
+		}
 		startC := make(chan struct{})
-		doneC := make(chan int, np)
+		dones := make([]chan struct{}, np+1) // np: the application
+		for i := range dones {
+			dones[i] = make(chan struct{})
+		}
 		var nDelivered int64
 		for pi := range w.Peers {
 			go func(pi int) {
-				defer func() { doneC <- pi }()
+				defer close(dones[pi])
+				if pi == cw.stallPi {
+					atomic.StoreInt64(&cw.stall.reader, c05Goid()) // this goroutine is the connection's reader
+				}
 				<-startC
-				for _, st := range seqs[pi] {
+				for k, st := range seqs[pi] {
 					if atomic.LoadInt32(&cw.abandoned) != 0 {
+						return
+					}
+					if pi == recPi && k == recAt && !reconnect(pi, true) {
 						return
 					}
 					if !cw.deliverDirect(w.Peers[pi], st) {
@@ -1583,47 +2360,98 @@ func c05Case(c *rig.Ctx) {
 				}
 			}(pi)
 		}
-		close(startC)
-		waitAll := func(max time.Duration) bool {
-			deadline := time.After(max)
-			for n := 0; n < np; {
-				select {
-				case <-doneC:
-					n++
-				case <-deadline:
-					for ; n > 0; n-- { // put back what was consumed so that a later wait sees it again
-						doneC <- -1
-					}
-					return false
+		go func() {
+			defer close(dones[np])
+			<-startC
+			for _, op := range plan {
+				if atomic.LoadInt32(&cw.abandoned) != 0 || !cw.appGuarded(op) {
+					return
 				}
 			}
-			return true
+			if cw.spareIn {
+				cw.appGuarded(c05AppOp{kind: 2, addr: "-"}) // the device ends as it began
+			}
+		}()
+		close(startC)
+		// join waits for the goroutines named; the one parked in the stalled writer is joined after the release
+		join := func(what string, idx []int) bool {
+			wait := func(max time.Duration) bool {
+				deadline := time.After(max)
+				for _, i := range idx {
+					select {
+					case <-dones[i]:
+					case <-deadline:
+						return false
+					}
+				}
+				return true
+			}
+			if !wait(c05Watchdog) {
+				fmt.Fprintf(os.Stderr, "\n@@STUCK %s: %s does not finish; history:\n  %s\n", c.Tag(), what, strings.Join(cw.hist(), "\n  "))
+				if atomic.LoadInt32(&cw.abandoned) == 0 && !wait(c05Stuck) {
+					c.Inconclusive("%s did not finish and the parent did not intervene", what)
+					atomic.StoreInt32(&cw.abandoned, 1)
+				} else {
+					c.Inconclusive("%s took more than %v", what, c05Watchdog)
+				}
+			}
+			return atomic.LoadInt32(&cw.abandoned) == 0
 		}
-		if !waitAll(c05Watchdog) {
-			fmt.Fprintf(os.Stderr, "\n@@STUCK %s: concurrent delivery does not finish; history:\n  %s\n", c.Tag(), strings.Join(cw.hist(), "\n  "))
-			if atomic.LoadInt32(&cw.abandoned) == 0 && !waitAll(c05Stuck) {
-				c.Inconclusive("concurrent delivery did not finish and the parent did not intervene")
-				atomic.StoreInt32(&cw.abandoned, 1)
-			} else {
-				c.Inconclusive("concurrent delivery took more than %v", c05Watchdog)
+		var others []int
+		for i := 0; i <= np; i++ {
+			if i != cw.stallPi {
+				others = append(others, i)
 			}
 		}
+		ok := join("concurrent delivery (peers and application)", others)
 		delivered = int(atomic.LoadInt64(&nDelivered))
-		if atomic.LoadInt32(&cw.abandoned) != 0 {
+		if !ok {
 			c.Witness(cw.hist())
 			return
 		}
-		cw.trackNM(-2, "the concurrent phase")
+		if recPi >= 0 {
+			afterReconnect(recPi)
+		}
+		for pi := range w.Peers {
+			from := 0
+			if pi == recPi {
+				from = recAt
+			}
+			cw.own[pi] = nil
+			for _, st := range seqs[pi][from:] {
+				cw.own[pi] = append(cw.own[pi], st.unann)
+			}
+		}
+		cw.trackNM(-2, "the concurrent phase", nil)
+		if cw.stallPi >= 0 {
+			joinStalled = func() bool {
+				ok := join("the released connection's delivery", []int{cw.stallPi})
+				delivered = int(atomic.LoadInt64(&nDelivered))
+				return ok
+			}
+		}
 	} else {
 		for k := 0; k < nmsg; k++ {
+			if k == recAt {
+				if !reconnect(recPi, false) {
+					c.Witness(cw.hist())
+					return
+				}
+				afterReconnect(recPi)
+			}
 			st := next(k, -1)
 			cw.note("%s :: %s", st.label, c05ClipB(st.b))
-			if !cw.deliver(w.Peers[st.pi], st.b, st.mode, st.label, st.valid) {
+			cw.own[st.pi] = append(cw.own[st.pi], st.unann)
+			if st.pi == cw.stallPi {
+				// the connection's reader delivers it; it parks in the writer at the first answer until the release
+				cw.reader.q <- st
+				c.Count("messages_queued_on_the_stalled_connection", 1)
+			} else if !cw.deliver(w.Peers[st.pi], st.b, st.mode, st.label, st.valid) {
 				c.Witness(cw.hist())
 				return
 			}
 			delivered++
-			cw.trackNM(st.pi, st.label)
+			cw.trackNM(st.pi, st.label, st.b)
 			if r.Intn(4) == 0 {
 				cw.flushHeld(r)
 			}
@@ -1636,61 +2464,36 @@ func c05Case(c *rig.Ctx) {
 	c.Events(int64(delivered))
 	cw.flushHeld(r)
 
-	// --- health probe on EVERY connection: a valid detailed discovery read yields exactly one reply
-	probes, healthy, d28 := 0, 0, 0
+	// --- a fresh peer connects after the damage; it is probed like every other connection
+	if r.Intn(3) == 0 {
+		fi := len(w.Peers)
+		announce := r.Intn(2) == 0
+		cw.note("a fresh peer %d connects after the messages (announces itself: %v)", fi, announce)
+		c.Count("fresh_peers_after_the_messages", 1)
+		if !cw.stack("fresh-peer-panic", fmt.Sprintf("SetupRemoteDevice of the fresh peer %d", fi), func() {
+			p := w.AddPeer(fi)
+			p.Ctr = uint64(fi+1) * 100000
+			if announce {
+				p.Announce(c05Feats(cw.lists))
+			}
+		}) {
+			c.Witness(cw.hist())
+			return
+		}
+		cw.conn = append(cw.conn, 0)
+		cw.states = append(cw.states, map[bool]int{false: 0, true: 1}[announce])
+		cw.trackNM(fi, "the fresh peer's setup", nil)
+	}
+
+	// --- health probe on EVERY connection: a valid detailed discovery read yields exactly one reply, addressed to
+	// the asking feature, whose payload equals the one captured during the setup
 	health := func(when string) bool {
-		for pi, p := range w.Peers {
-			p.Tap.Take()
-			var mc model.MsgCounterType
-			n0 := p.PanicCount()
-			if pn := cw.call(fmt.Sprintf("health probe (%s) on peer %d", when, pi), func() {
-				mc = p.Send(model.CmdClassifierTypeRead, p.NM(), rig.LNM, false, nil, model.CmdType{NodeManagementDetailedDiscoveryData: &model.NodeManagementDetailedDiscoveryDataType{}})
-			}); pn != "" {
-				c.Violate("harness-panic", "health probe: %s", pn)
+		for pi := range w.Peers {
+			if !cw.probe(pi, when, false) {
 				return false
-			}
-			if atomic.LoadInt32(&cw.abandoned) != 0 {
-				return false
-			}
-			if p.PanicCount() > n0 {
-				st := p.Panics[len(p.Panics)-1]
-				c.Violate("health/panic@"+c05Frame(st), "the health probe (%s) on peer %d panicked: %s\nhistory:\n  %s", when, pi, st, strings.Join(cw.hist(), "\n  "))
-				atomic.StoreInt32(&cw.abandoned, 1)
-				c.Witness(cw.hist())
-				return false
-			}
-			outs := p.Tap.Take()
-			rr := rig.Classify(outs, mc)
-			probes++
-			c.Events(1)
-			okReply := rr.Replies == 1 && rr.Errors == 0 && rr.OtherRef == 0
-			var nmGone bool
-			cw.call("FeatureByAddress", func() { nmGone = rig.IsNil(p.RD.FeatureByAddress(p.NM())) })
-			switch {
-			case okReply:
-				var hasData bool
-				for _, d := range rr.All {
-					if len(d.Payload.Cmd) == 1 && d.Payload.Cmd[0].NodeManagementDetailedDiscoveryData != nil && d.Payload.Cmd[0].NodeManagementDetailedDiscoveryData.DeviceInformation != nil {
-						hasData = true
-					}
-				}
-				if !hasData {
-					c.Violate("health/reply-without-discovery-data", "%s, peer %d (state %d): the reply to the discovery read carries no discovery data: %s\nhistory:\n  %s", when, pi, cw.states[pi], rig.JS(rr.All), strings.Join(cw.hist(), "\n  "))
-					c.Witness(cw.hist())
-				} else {
-					healthy++
-					c.Count("health_ok", 1)
-				}
-			case nmGone && pi < len(cw.nmGoneBy) && cw.nmGoneBy[pi] == pi:
-				d28++
-				c.Count("health_peer_unannounced_own_nodemanagement", 1)
-				c.Violate("health/peer-unannounced-own-nodemanagement", "%s, peer %d (state %d) un-announced its own [0]/0 and is no longer served (%s)\nhistory:\n  %s", when, pi, cw.states[pi], rr, strings.Join(cw.hist(), "\n  "))
-			default:
-				c.Violate(fmt.Sprintf("health/probe-unanswered/replies=%d,errors=%d", rr.Replies, rr.Errors), "%s, peer %d (state %d): a valid detailed discovery read (counter %d) on a connection whose [0]/0 %s yielded %s, written to the connection: %s\nhistory:\n  %s",
-					when, pi, cw.states[pi], mc, map[bool]string{false: "still resolves", true: "was not announced away by this peer itself"}[nmGone], rr, rig.JS(outs), strings.Join(cw.hist(), "\n  "))
-				c.Witness(cw.hist())
 			}
 		}
+		cw.rounds++
 		return true
 	}
 	if !health("right after the messages") {
@@ -1699,22 +2502,43 @@ func c05Case(c *rig.Ctx) {
 
 	// --- sweep: valid messages on every connection that take every lock an inbound handler takes
 	for pi, p := range w.Peers {
+		if pi >= len(corp) || pi == cw.stallPi {
+			continue // the fresh peer has no corpus; the stalled connection's reader is parked
+		}
 		for _, m := range corp[pi] {
 			switch m.kind {
 			case "subscription-request", "subscription-delete", "subscription-request-generic", "subscription-delete-generic", "binding-request", "binding-delete", "binding-request-generic", "binding-delete-generic",
 				"binding-data-read", "subscription-data-call", "usecase-read", "destinationlist-read",
-				"read", "read-selector", "write-full", "write-partial", "notify-partial", "reply", "result-error", "list-read", "discovery-notify-full":
+				"read", "read-selector", "write-full", "write-partial", "notify-partial", "reply", "result-error", "list-read", "discovery-notify-full",
+				"subscription-request-nodemanagement", "subscription-delete-nodemanagement", "binding-request-to-client-feature", "subscription-request-devicediagnosis", "subscription-delete-devicediagnosis",
+				"read-nested-entity-heartbeat", "read-spare-entity", "two-cmds-read", "two-cmds-write":
 				cw.note("sweep peer%d %s", pi, m.kind)
 				c.Count("sweep_messages", 1)
 				if !cw.deliver(p, m.b, 1, fmt.Sprintf("sweep peer%d %s", pi, m.kind), true) {
 					c.Witness(cw.hist())
 					return
 				}
-				cw.trackNM(pi, "sweep "+m.kind)
+				cw.trackNM(pi, "sweep "+m.kind, m.b)
 			}
 		}
 	}
 	cw.flushHeld(r)
+	// --- the application makes every call once more over whatever the messages left (local data changes that are
+	// notified, an entity added and removed, subscribe / bind / read towards the peers), each under the watchdog
+	for _, op := range cw.appPlan(r, -1) {
+		op := op
+		cw.note("%s", op)
+		if !cw.stack("afterwards/application-call-panic", op.String(), func() { cw.appDo(op) }) {
+			c.Witness(cw.hist())
+			return
+		}
+		c.Count("application_calls", 1)
+		c.Count("application_call:"+c05AppKinds[op.kind], 1)
+	}
+	if cw.spareIn {
+		c.Violate("harness-panic", "the spare entity is still part of the device after the application's calls")
+		return
+	}
 	// what the stack wrote must be decodable datagrams
 	for pi, p := range w.Peers {
 		if len(p.Tap.Broken) > 0 {
@@ -1724,7 +2548,10 @@ func c05Case(c *rig.Ctx) {
 
 	// --- what an application does afterwards: read-only walks must not panic
 	if !cw.stack("afterwards/api-panic", "read-only API walk (UseCases, entities, features, data, registries)", func() {
-		for _, p := range w.Peers {
+		for pi, p := range w.Peers {
+			if pi == cw.stallPi {
+				continue // its reader may be parked inside a call that holds one of this connection's own locks
+			}
 			_ = p.RD.UseCases()
 			_ = p.RD.Address()
 			_ = p.RD.DeviceType()
@@ -1744,7 +2571,7 @@ func c05Case(c *rig.Ctx) {
 			_ = w.Local.BindingManager().Bindings(p.RD)
 			_ = w.Local.SubscriptionManager().Subscriptions(p.RD)
 		}
-		for _, f := range []api.FeatureLocalInterface{cw.lc, cw.mcl, cw.gsrv, cw.gcl} {
+		for _, f := range []api.FeatureLocalInterface{cw.lc, cw.mcl, cw.gsrv, cw.gcl, cw.dd} {
 			for _, fn := range f.Functions() {
 				_ = f.DataCopy(fn)
 			}
@@ -1763,9 +2590,26 @@ func c05Case(c *rig.Ctx) {
 		return
 	}
 
+	// --- the stalled writer takes its datagrams now: the handler parked in it returns, the connection's remaining
+	// messages are handled, and the connection is probed like the others
+	if cw.stall != nil {
+		cw.note("the stalled writer of peer %d is released", cw.stallPi)
+		cw.release()
+		if atomic.LoadInt32(&cw.abandoned) != 0 || !joinStalled() {
+			c.Witness(cw.hist())
+			return
+		}
+		cw.trackNM(cw.stallPi, "the release of the stalled writer", nil)
+		if !cw.probe(cw.stallPi, "after the release of its writer", false) {
+			return
+		}
+		cw.flushHeld(r)
+	}
+
 	// --- teardown takes the remaining locks (approval caches, registries, event bus)
 	cw.waitTimers()
 	closeWorld()
+	cw.winWait()
 	if atomic.LoadInt32(&cw.abandoned) != 0 {
 		return
 	}
@@ -1784,9 +2628,9 @@ func c05Case(c *rig.Ctx) {
 		c.Count("worlds_with_approval_callbacks", 1)
 	}
 	h := fnv.New64a()
-	fmt.Fprintf(h, "%v|%d|%v|%s", cw.states, cw.approvals, cw.policy, strings.Join(shape, ";"))
+	fmt.Fprintf(h, "%v|%v|%d,%d|%d|%v|%s", cw.states, cw.conn, recPi, recAt, cw.approvals, cw.policy, strings.Join(shape, ";"))
 	c.Shape(fmt.Sprintf("%x", h.Sum64()))
-	c.NonTrivial(mutated >= 4 && decodable >= 1 && probes == 2*np)
+	c.NonTrivial(mutated >= 4 && decodable >= 1 && cw.rounds == 2)
 	hs := cw.hist()
 	if len(hs) > 14 {
 		hs = hs[:14]
@@ -1797,5 +2641,5 @@ func c05Case(c *rig.Ctx) {
 		}
 	}
 	c.Sample(map[string]any{"peers": np, "peer_states": cw.states, "approval_callbacks_per_server": cw.approvals, "approval_policy": cw.policy, "messages": delivered, "mutated": mutated,
-		"mutated_still_decodable": decodable, "health_ok": healthy, "health_d28": d28, "first_steps": hs})
+		"mutated_still_decodable": decodable, "health_ok": atomic.LoadInt64(&cw.healthy), "health_d28": atomic.LoadInt64(&cw.d28), "connection_kinds": cw.conn, "reconnect_of_peer": recPi, "reconnect_before_message": recAt, "first_steps": hs})
 }
